@@ -4,7 +4,12 @@ An abstract document is a tree of {'name': (prefix|None, local), 'decls': [(pref
 'attrs': [(prefix|None, local)], 'kids': [...]} -- the `tree` of Spec/Namespaces.v.  It is rendered to XML
 text for the real crates (harness domain `ns`) and to the word form read by the extracted model and
 specification (ocaml/{domains,specdomains}/nsattr/ns.ml).  A query case adds a name test, the axis
-(elements `//T` or attributes `//@T`) and the caller's prefix bindings."""
+(elements `//T` or attributes `//@T`) and the caller's prefix bindings.
+
+A case may carry a DTD, `dtd` = [(element type (prefix|None, local), [(name, kind, value), ...]), ...]: one entry per
+attribute-list declaration, in document order; name = ('D', prefix|None) for xmlns / xmlns:prefix or ('A', (prefix|None, local))
+for an ordinary attribute; kind = 'V' ("value"), 'F' (#FIXED "value"), 'R' (#REQUIRED), 'I' (#IMPLIED) -- the `nsdtd` of
+Spec/Namespaces.v.  Namespaces in XML applies AFTER attribute defaulting (XML 1.0 3.3.2, Namespaces 3; D67)."""
 import itertools, json, os
 from . import lib
 
@@ -20,6 +25,21 @@ def render_xml(t):
     kids = ''.join(render_xml(k) for k in t['kids'])
     return '<%s%s>%s</%s>' % (qn(t['name']), atts, kids, qn(t['name'])) if kids else '<%s%s/>' % (qn(t['name']), atts)
 
+def attname(n):
+    return ('xmlns' + (':' + n[1] if n[1] else '')) if n[0] == 'D' else qn(n[1])
+
+def render_dtd(dtd, root):
+    if not dtd: return ''
+    out = []
+    for ty, defs in dtd:
+        ds = ''.join(' %s CDATA %s' % (attname(n), {'V': '"%s"' % v, 'F': '#FIXED "%s"' % v, 'R': '#REQUIRED', 'I': '#IMPLIED'}[k])
+                     for n, k, v in defs)
+        out.append('<!ATTLIST %s%s>' % (qn(ty), ds))
+    return '<!DOCTYPE %s [%s]>' % (qn(root['name']), ''.join(out))
+
+def render_case_xml(c):
+    return render_dtd(c.get('dtd') or [], c['doc']) + render_xml(c['doc'])
+
 def cps(s):
     return '.'.join(str(ord(c)) for c in s)
 
@@ -33,6 +53,16 @@ def render_words(t, depth=0):
         w += render_words(k, depth + 1)
     return w
 
+def dtd_words(dtd):
+    w = []
+    for ty, defs in dtd or []:
+        for n, k, v in defs:
+            w.append('d/%s/%s/%s/%s/%s' % (w_qn(ty), n[0], cps(n[1] or '') if n[0] == 'D' else w_qn(n[1]), k, cps(v or '')))
+    return w
+
+def case_words(c):
+    return dtd_words(c.get('dtd')) + render_words(c['doc'])
+
 def test_xpath(test, attrs):
     k, p, l = test
     s = '*' if k == 'any' else (p + ':*' if k == 'pany' else (p + ':' if p else '') + l)
@@ -45,12 +75,12 @@ def test_word(test):
 def case_lines(c):
     """(line for the harness, line for model / spec)"""
     if c['kind'] == 'doc':
-        return 'doc ' + lib.enc(render_xml(c['doc'])), 'doc ' + ' '.join(render_words(c['doc']))
+        return 'doc ' + lib.enc(render_case_xml(c)), 'doc ' + ' '.join(case_words(c))
     b = c['bindings']
-    h = 'q %s %s %s' % (lib.enc(render_xml(c['doc'])), lib.enc(test_xpath(c['test'], c['attrs'])),
+    h = 'q %s %s %s' % (lib.enc(render_case_xml(c)), lib.enc(test_xpath(c['test'], c['attrs'])),
                         ' '.join('%s=%s' % (lib.enc(p), lib.enc(u)) for p, u in b))
     m = 'q %s a%d %s %s' % (test_word(c['test']), 1 if c['attrs'] else 0,
-                            ' '.join('b%s=%s' % (cps(p), cps(u)) for p, u in b), ' '.join(render_words(c['doc'])))
+                            ' '.join('b%s=%s' % (cps(p), cps(u)) for p, u in b), ' '.join(case_words(c)))
     return h.strip(), ' '.join(m.split())
 
 def canon(line):
@@ -73,6 +103,43 @@ def elements(t, env=None, out=None):
         elements(k, e, out)
     return out
 
+def binding_defs(dtd):
+    """flat list of (type, name, kind, value): the first definition of an attribute of an element type is binding"""
+    seen, out = set(), []
+    for ty, defs in dtd or []:
+        for n, k, v in defs:
+            if (ty, n) in seen: continue
+            seen.add((ty, n)); out.append((ty, n, k, v))
+    return out
+
+def apply_defaults(dtd, t):
+    """the document 'as though the attributes were present with the declared default value' (generator-side oracle)"""
+    decls, attrs = list(t['decls']), list(t['attrs'])
+    for ty, n, k, v in binding_defs(dtd):
+        if ty != t['name'] or k not in 'VF': continue
+        if n[0] == 'D':
+            if all(p != n[1] for p, _ in t['decls']): decls.append((n[1], v))
+        elif n[1] not in t['attrs']:
+            attrs.append(n[1])
+    return {'name': t['name'], 'decls': decls, 'attrs': attrs, 'kids': [apply_defaults(dtd, k) for k in t['kids']]}
+
+def eff(c):
+    return apply_defaults(c.get('dtd'), c['doc']) if c.get('dtd') else c['doc']
+
+def dtd_prefixes(dtd):
+    ps = set()
+    for ty, defs in dtd or []:
+        if ty[0]: ps.add(ty[0])
+        for n, _, _ in defs:
+            p = n[1] if n[0] == 'D' else n[1][0]
+            if p: ps.add(p)
+    return ps
+
+def rename_dtd(dtd, f):
+    r = lambda p: f.get(p, p) if p else p
+    return [((r(ty[0]), ty[1]), [((('D', r(n[1])) if n[0] == 'D' else ('A', (r(n[1][0]), n[1][1]))), k, v) for n, k, v in defs])
+            for ty, defs in dtd or []]
+
 def nswf(t):
     for x, env in elements(t):
         if x['name'][0] and not bound(env, x['name'][0]): return False
@@ -91,7 +158,19 @@ def rename_doc(t, f):
             'attrs': [(r(a[0]), a[1]) for a in t['attrs']], 'kids': [rename_doc(k, f) for k in t['kids']]}
 
 def nontrivial(c):
-    return any(x['decls'] for x, _ in elements(c['doc']))
+    return any(x['decls'] for x, _ in elements(eff(c)))
+
+def norm_case(c):
+    """tuples instead of the lists json gives back"""
+    def t(x):
+        return {'name': tuple(x['name']), 'decls': [tuple(y) for y in x['decls']], 'attrs': [tuple(y) for y in x['attrs']],
+                'kids': [t(k) for k in x['kids']]}
+    c = dict(c, doc=t(c['doc']))
+    if c.get('dtd'):
+        c['dtd'] = [(tuple(ty), [((n[0], n[1]) if n[0] == 'D' else ('A', tuple(n[1])), k, v) for n, k, v in defs]) for ty, defs in c['dtd']]
+    if c['kind'] == 'q':
+        c['test'] = tuple(c['test']); c['bindings'] = [tuple(b) for b in c['bindings']]
+    return c
 
 # ------------------------------------------------------------------ generators
 URIS = ['u1', 'u2']
@@ -128,7 +207,7 @@ def small_universe(rng):
     return docs
 
 ALL_TESTS = [('any', None, None)] + [('pany', p, None) for p in ('r', 's')] + \
-            [('name', p, l) for p in (None, 'r', 's') for l in ('a', 'b', 'c', 'y', 'z', 'k', 'xmlns')]
+            [('name', p, l) for p in (None, 'r', 's') for l in ('a', 'b', 'c', 'y', 'z', 'k', 'xmlns', 'zd', 'w')]
 BINDINGS = [[('r', 'u1'), ('s', 'u2')], [('r', 'u2'), ('s', XML_NS)], [('s', 'u1'), ('r', 'u1')]]
 
 def random_doc(rng, depth=0, env=None):
@@ -158,7 +237,22 @@ def random_doc(rng, depth=0, env=None):
             kids.append(random_doc(rng, depth + 1, e))
     return {'name': name, 'decls': decls, 'attrs': attrs, 'kids': kids}
 
-def random_query(rng, doc):
+def random_query(rng, doc, dtd=None):
+    q = random_query1(rng, apply_defaults(dtd, doc) if dtd else doc)
+    q['doc'] = doc
+    if dtd: q['dtd'] = strip_attr_defaults(dtd) if q['attrs'] else dtd
+    return q
+
+def strip_attr_defaults(dtd):
+    """//@T is not asked where the DTD supplies ORDINARY attributes: those nodes carry order key 0, sort first and collapse
+    in a node-set (listed finding D19 of C05 / C07); the per-element dump (`doc`) and //T keep them"""
+    out = []
+    for ty, defs in dtd:
+        defs = [d for d in defs if d[0][0] == 'D']
+        if defs: out.append((ty, defs))
+    return out
+
+def random_query1(rng, doc):
     if rng.random() < 0.6:
         # aim at a node of the document: bind a prefix to its namespace and ask for its name
         x, env = rng.choice(elements(doc))
@@ -186,22 +280,115 @@ def corpus_cases():
         raw = json.load(open(os.path.join(lib.VERIF, 'corpus', 'C10_regressions.json')))
     except OSError:
         return []
-    def t(x):
-        return {'name': tuple(x['name']), 'decls': [tuple(y) for y in x['decls']], 'attrs': [tuple(y) for y in x['attrs']],
-                'kids': [t(k) for k in x['kids']]}
-    out = []
-    for c in raw:
-        c = dict(c, doc=t(c['doc']))
-        if c['kind'] == 'q':
-            c['test'] = tuple(c['test']); c['bindings'] = [tuple(b) for b in c['bindings']]
-        out.append(c)
-    return out
+    return [norm_case(c) for c in raw]
 
-def unbound_query(rng, doc):
+def unbound_query(rng, doc, dtd=None):
     """a prefix without binding is an error (only asked where some node is tested)"""
-    has_attrs = any(x['attrs'] for x, _ in elements(doc))
-    return {'kind': 'q', 'doc': doc, 'test': rng.choice([('pany', 'zz', None), ('name', 'zz', 'a')]),
-            'attrs': has_attrs and rng.random() < 0.5, 'bindings': [('r', 'u1')]}
+    has_attrs = any(x['attrs'] for x, _ in elements(apply_defaults(dtd, doc) if dtd else doc))
+    q = {'kind': 'q', 'doc': doc, 'test': rng.choice([('pany', 'zz', None), ('name', 'zz', 'a')]),
+         'attrs': has_attrs and rng.random() < 0.5, 'bindings': [('r', 'u1')]}
+    if dtd: q['dtd'] = strip_attr_defaults(dtd) if q['attrs'] else dtd
+    return q
+
+# ------------------------------------------------------------------ generators: namespace declarations by ATTLIST default (D67)
+def dtd_families(n0, n1, n2):
+    """the shapes of DESIGN 5.10 / D67 over the element types of the 3-level chain (raw names n0 > n1 > n2)"""
+    D = lambda p: ('D', p)
+    return [
+        ('default-only',            [(n0, [(D('p'), 'V', 'u1')])]),
+        ('default-only-new-prefix', [(n0, [(D('d'), 'V', 'u2')])]),
+        ('inner-type-only',         [(n1, [(D('p'), 'V', 'u2'), (D('d'), 'V', 'u1')])]),
+        ('default-namespace',       [(n0, [(D(None), 'V', 'u1')]), (n2, [(D(None), 'V', 'u2')])]),
+        ('default-namespace-empty', [(n1, [(D(None), 'V', '')])]),
+        ('fixed',                   [(n0, [(D('p'), 'F', 'u2'), (D(None), 'F', 'u1')])]),
+        ('required-implied',        [(n0, [(D('p'), 'R', ''), (D(None), 'I', '')]), (n1, [(D('d'), 'I', '')])]),
+        ('first-binding-two-lists', [(n1, [(D('p'), 'V', 'u1')]), (n1, [(D('p'), 'V', 'u2'), (D('d'), 'V', 'u2')])]),
+        ('first-binding-no-value',  [(n1, [(D('p'), 'I', '')]), (n1, [(D('p'), 'V', 'u1')])]),
+        ('first-binding-one-list',  [(n0, [(D(None), 'V', 'u2'), (D(None), 'V', 'u1'), (D('d'), 'V', 'u1'), (D('d'), 'F', 'u2')])]),
+        ('defaulted-attribute',     [(n2, [(D('d'), 'V', 'u1'), (('A', ('d', 'w')), 'V', 'v'), (('A', (None, 'w')), 'F', 'v')])]),
+        ('every-level',             [(n0, [(D('p'), 'V', 'u1')]), (n1, [(D('p'), 'V', 'u2')]), (n2, [(D('p'), 'V', 'u1'), (D(None), 'V', 'u1')])]),
+        ('other-type',              [((None, 'zz'), [(D('p'), 'V', 'u1')]), (('p', n0[1]) if not n0[0] else (None, n0[1]), [(D('d'), 'V', 'u1')])]),
+    ]
+
+def use_defaults(rng, doc, dtd):
+    """write attributes (and, for element types no ATTLIST names, element names) with the prefixes that are bound
+    only because of a default"""
+    targeted = {ty for ty, _ in dtd}
+    def go(t, env_w, env_e, e):
+        env_w = list(t['decls']) + env_w
+        env_e = list(e['decls']) + env_e
+        only = [p for p in ('p', 'q', 'pp', 'd') if bound(env_e, p) and not bound(env_w, p)]
+        attrs, name = list(t['attrs']), t['name']
+        for p in only:
+            if rng.random() < 0.6 and all(a[1] != 'z' + p for a in attrs):
+                attrs.append((p, 'z' + p))
+        if only and t['name'] not in targeted and rng.random() < 0.4:
+            cand = (rng.choice(only), t['name'][1])
+            if cand not in targeted: name = cand
+        return {'name': name, 'decls': t['decls'], 'attrs': attrs,
+                'kids': [go(k, env_w, env_e, ek) for k, ek in zip(t['kids'], e['kids'])]}
+    env0 = [('xml', XML_NS)]
+    return go(doc, env0, env0, apply_defaults(dtd, doc))
+
+def small_universe_dtd(rng, doc, k):
+    """the k-th family for one chain document, the defaulted prefixes put to use"""
+    n0, n1, n2 = doc['name'], doc['kids'][0]['name'], doc['kids'][0]['kids'][0]['name']
+    fams = dtd_families(n0, n1, n2)
+    fam, dtd = fams[k % len(fams)]
+    return fam, use_defaults(rng, doc, dtd), dtd
+
+def random_dtd_case(rng):
+    """a random document, a random DTD over its element types (and sometimes another type), the defaulted prefixes in use"""
+    doc = random_doc(rng)
+    names = sorted({x['name'] for x, _ in elements(doc)}, key=lambda n: (n[0] or '', n[1]))
+    dtd = []
+    for _ in range(rng.choice([1, 1, 2, 3])):
+        ty = rng.choice(names) if rng.random() < 0.9 else (None, 'zz')
+        defs = []
+        for _ in range(rng.choice([1, 1, 2, 3])):
+            k = rng.random()
+            if k < 0.3: n = ('D', None)
+            elif k < 0.8: n = ('D', rng.choice(['p', 'q', 'd', 'd']))
+            else: n = ('A', (rng.choice([None, 'p', 'd']), 'w'))
+            kind = rng.choice('VVVVVVFFRI')
+            if n[0] == 'A' and kind == 'R': kind = 'I'          # D36 (C11): a #REQUIRED attribute is materialised
+            v = rng.choice(URIS + ['u3'] + ([''] if n == ('D', None) else []))
+            defs.append((n, kind, v if kind in 'VF' else ''))
+        dtd.append((ty, defs))
+    if rng.random() < 0.2:
+        # an element whose own prefix is declared by the default of its own type
+        xs = [x for x, _ in elements(doc) if not x['name'][0] and not x['kids'] and x['name'] not in {ty for ty, _ in dtd}]
+        if xs:
+            x = rng.choice(xs); x['name'] = ('d', x['name'][1])
+            dtd.append((x['name'], [(('D', 'd'), rng.choice('VF'), rng.choice(URIS))]))
+    return use_defaults(rng, doc, dtd), dtd
+
+def dtd_features(c):
+    """what a case with a DTD exercises (evidence histogram)"""
+    out = set()
+    dtd = c.get('dtd') or []
+    if not dtd: return out
+    flat = [(ty, n, k, v) for ty, defs in dtd for n, k, v in defs]
+    bind = binding_defs(dtd)
+    if len(flat) != len(bind): out.add('second-definition-ignored')
+    e = apply_defaults(dtd, c['doc'])
+    for (x, envw), (y, enve) in zip(elements(c['doc']), elements(e)):
+        added = y['decls'][len(x['decls']):]
+        if added: out.add('declaration-by-default')
+        if any(p is None for p, _ in added): out.add('default-namespace-by-default')
+        if any(p is None and u == '' for p, u in added): out.add('xmlns-empty-by-default')
+        for ty, n, k, v in bind:
+            if ty != x['name'] or n[0] != 'D': continue
+            if k == 'F' and (n[1], v) in added: out.add('fixed')
+            if k in 'RI': out.add('required-or-implied-xmlns')
+            if k in 'VF' and any(p == n[1] for p, _ in x['decls']): out.add('written-wins-over-default')
+        only = {p for p in ('p', 'q', 'pp', 'd') if bound(enve, p) != bound(envw, p)}
+        if x['name'][0] in only: out.add('element-name-with-defaulted-prefix')
+        if any(a[0] in only for a in y['attrs']): out.add('attribute-with-defaulted-prefix')
+        if len(y['attrs']) > len(x['attrs']): out.add('ordinary-attribute-by-default')
+        if bound(enve, None) != bound(envw, None) and not x['name'][0]: out.add('element-in-defaulted-default-namespace')
+    if len(e['decls']) == len(c['doc']['decls']) and 'declaration-by-default' in out: out.add('inner-element-type-only')
+    return out
 
 def rename_ref(line, f):
     """apply the document renaming to the attribute names of a `nodes ...` line"""
@@ -247,10 +434,20 @@ def shrink(case, still_fails):
             for v in doc_variants(k):
                 yield dict(t, kids=t['kids'][:i] + [v] + t['kids'][i + 1:])
     def candidates(c):
+        dtd = c.get('dtd') or []
+        ok = lambda d, dt: nswf(apply_defaults(dt, d) if dt else d)
         for d in doc_variants(c['doc']):
-            if nswf(d): yield dict(c, doc=d)
+            if ok(d, dtd): yield dict(c, doc=d)
         for k in c['doc']['kids']:
-            if nswf(k): yield dict(c, doc=k)                                          # a child as the new root
+            if ok(k, dtd): yield dict(c, doc=k)                                       # a child as the new root
+        for i in range(len(dtd)):
+            dt = dtd[:i] + dtd[i + 1:]
+            if ok(c['doc'], dt): yield dict(c, dtd=dt)                                # drop an attribute-list declaration
+            ty, defs = dtd[i]
+            for j in range(len(defs)):
+                if len(defs) > 1:
+                    dt = dtd[:i] + [(ty, defs[:j] + defs[j + 1:])] + dtd[i + 1:]
+                    if ok(c['doc'], dt): yield dict(c, dtd=dt)                        # drop one definition
         if c['kind'] == 'q':
             for i in range(len(c['bindings'])):
                 if c['bindings'][i][0] != c['test'][1]:           # keep the binding the test needs
@@ -267,13 +464,13 @@ def shrink(case, still_fails):
 
 def describe(c):
     if c['kind'] == 'doc':
-        return render_xml(c['doc'])
-    return '%s on %s with bindings %s' % (test_xpath(c['test'], c['attrs']), render_xml(c['doc']),
+        return render_case_xml(c)
+    return '%s on %s with bindings %s' % (test_xpath(c['test'], c['attrs']), render_case_xml(c),
                                           ', '.join('%s=%s' % b for b in c['bindings']) or '(none)')
 
 def check(run):
-    run.trusted = ['Coq 8.16.1 kernel + VM', 'Spec/Namespaces.v: transcription of Namespaces in XML 1.0 (3, 5, 6) and XPath 1.0 2.3 (readings N1-N3 stated there)',
-                   'Model/NsModel.v: hand-written model of info::{in_scope_namespace, find_nameapce_uri, namespace_name}, dom::as_expanded_name, xpath::{eval_node_test, Context::add_ns/get_ns_uri/expanded_name}, tied by the ns correspondence below',
+    run.trusted = ['Coq 8.16.1 kernel + VM', 'Spec/Namespaces.v: transcription of Namespaces in XML 1.0 (3, 5, 6), XML 1.0 3.3 / 3.3.2 (attribute defaults, applied first) and XPath 1.0 2.3 (readings N1-N6 stated there)',
+                   'Model/NsModel.v: hand-written model of info::{declaration_att_defs, namespace_attributes, attributes, in_scope_namespace, find_nameapce_uri, namespace_name}, dom::as_expanded_name, xpath::{eval_node_test, Context::add_ns/get_ns_uri/expanded_name}, tied by the ns correspondence below',
                    'document order of //T and //@T (the traversal itself belongs to property C05)',
                    'renderer of abstract documents (checks/C10.py), xml-parser and the XPath parser for the concrete syntax',
                    'harness/src/domains/ns.rs, extraction (ExtrOcamlBasic only) + ocaml glue']
@@ -287,6 +484,25 @@ def check(run):
     rnd = [d for d in rnd if nswf(d)]
     cases = corpus_cases()
     run.extra['corpus_cases'] = len(cases)
+    # namespace declarations supplied by ATTLIST defaults (D67): every family over sampled chain documents, random DTDs
+    nfam = len(dtd_families((None, 'a'), (None, 'b'), (None, 'c')))
+    ddocs = []
+    for i, d in enumerate(rng.sample(uni, 390 if run.tier == 'quick' else len(uni))):
+        fam, doc, dtd = small_universe_dtd(rng, d, i)
+        if nswf(apply_defaults(dtd, doc)):
+            ddocs.append((doc, dtd, 4 if run.tier == 'quick' else 8))
+    for _ in range(500 if run.tier == 'quick' else 10000):
+        doc, dtd = random_dtd_case(rng)
+        if nswf(apply_defaults(dtd, doc)):
+            ddocs.append((doc, dtd, 3))
+    run.extra['documents_with_attlist_defaults'] = len(ddocs)
+    run.extra['attlist_default_families'] = nfam
+    for doc, dtd, nq in ddocs:
+        cases.append({'kind': 'doc', 'doc': doc, 'dtd': dtd})
+        for _ in range(nq):
+            cases.append(random_query(rng, doc, dtd))
+        if rng.random() < 0.1:
+            cases.append(unbound_query(rng, doc, dtd))
     if run.tier == 'quick':
         uni_docs = rng.sample(uni, 500)
         for d in uni_docs:
@@ -311,15 +527,18 @@ def check(run):
     # consistent renaming of the expression's prefixes together with the bindings
     pairs = []
     fresh = ['m1', 'm2', 'm3', 'm4']
-    for d in rnd[:(300 if run.tier == 'quick' else 4000)]:
-        ps = sorted(prefixes_of(d) - {'xml'})
+    nmeta = 300 if run.tier == 'quick' else 4000
+    for d, dtd in [(d, None) for d in rnd[:nmeta]] + [(d, dtd) for d, dtd, _ in ddocs[-nmeta:]]:
+        ps = sorted((prefixes_of(d) | dtd_prefixes(dtd)) - {'xml'})
         if not ps: continue
         tgt = rng.sample(ps + fresh, len(ps))           # injective, may permute the existing prefixes
         f = dict(zip(ps, tgt))
-        q = random_query(rng, d)
+        q = random_query(rng, d, dtd)
         q['bindings'] = [b for b in q['bindings']]
         c1, c2 = q, dict(q, doc=rename_doc(d, f))
+        if q.get('dtd'): c2['dtd'] = rename_dtd(q['dtd'], f)
         pairs.append(('doc', f, len(cases), len(cases) + 1)); cases += [c1, c2]
+        if dtd: run.count('metamorphic:doc-with-attlist-defaults')
         bp = sorted({p for p, _ in q['bindings']} | ({q['test'][1]} if q['test'][1] else set()))
         if bp:
             g = dict(zip(bp, rng.sample(bp + fresh, len(bp))))
@@ -339,11 +558,14 @@ def check(run):
                 run.count('test:' + c['test'][0] + ('/attr' if c['attrs'] else '/elem'))
                 run.count('selected:%d' % min(5, max(0, len(r[i].split(' ')) - 1)))
             else:
-                els = elements(c['doc'])
+                els = elements(eff(c))
                 run.count('elements:%d' % min(12, len(els)))
                 run.count('declarations:%d' % min(8, sum(len(x['decls']) for x, _ in els)))
                 if any(p is None and u == '' for x, _ in els for p, u in x['decls']): run.count('feature:undeclaration')
                 if any(x['attrs'] and bound(e, None) for x, e in els): run.count('feature:attributes-under-default-namespace')
+            for ft in dtd_features(c):
+                run.count('attlist-default:' + ft)
+            if c.get('dtd'): run.count('with-attlist:' + c['kind'])
             if i % 1201 == 0:
                 run.sample({'case': describe(c), 'implementation': r[i], 'model': m[i] if m else None, 'spec': s[i] if s else None})
             if m is not None and m[i] != r[i]:
@@ -397,7 +619,7 @@ def check(run):
         run.failing_inputs.append({
             'property': 'C10', 'class': 'namespaces-' + small['kind'],
             'what': '%s: implementation `%s`, Namespaces in XML / XPath 1.0 `%s`' % (describe(small), rr[0], ss[0]),
-            'case': small, 'xml': render_xml(small['doc']), 'implementation': rr[0], 'model': mm[0] if mm else None, 'spec': ss[0],
+            'case': small, 'xml': render_case_xml(small), 'implementation': rr[0], 'model': mm[0] if mm else None, 'spec': ss[0],
             'original': describe(cases[i]), 'replay': 'bin/check C10 --replay <this file>'})
     if fails:
         run.notes.append('%d failing inputs in all, %d distinct after shrinking the first 12' % (len(fails), len(reported)))
@@ -412,21 +634,15 @@ def check(run):
 
     return run.finish(level='proof',
         rule='one case = an abstract document (dump of every element) or a document + name test + axis + caller bindings; distinct by the abstract case; non-trivial = the document has at least one namespace declaration',
-        assumptions=['documents are namespace-well-formed: no duplicate declarations in a start-tag, the prefix xmlns is not used, every prefix used is bound; no DTD (namespace declarations supplied by attribute defaults are not looked at by xml-rs)',
+        assumptions=['documents are namespace-well-formed: no duplicate declarations in a start-tag, the prefix xmlns is not used, every prefix used is bound AFTER attribute defaulting; a DTD contributes attribute-list declarations only (CDATA type; xmlns / xmlns:p / ordinary names; "v", #FIXED "v", #REQUIRED, #IMPLIED) and no #REQUIRED ordinary attribute (materialised by xml-rs: finding D36 of C11)',
                      'caller bindings bind each prefix once and never the empty prefix (Context::add_ns(None, ..) is an extension outside XPath 1.0)',
+                     '//@T is not asked on a document whose DTD supplies ordinary attributes by default (order key 0: listed finding D19 of C05 / C07); their expanded names are compared in the per-element dumps',
                      'the traversal order of //T and //@T is document order (property C05); documents contain elements and attributes only, so the principal-node-type defect D14 cannot interfere'])
 
 def replay(path):
     d = json.load(open(path))
     print(json.dumps(d, indent=1, ensure_ascii=False))
-    def fix(c):
-        def t(x):
-            return {'name': tuple(x['name']), 'decls': [tuple(y) for y in x['decls']], 'attrs': [tuple(y) for y in x['attrs']],
-                    'kids': [t(k) for k in x['kids']]}
-        c = dict(c, doc=t(c['doc']))
-        if c['kind'] == 'q':
-            c['test'] = tuple(c['test']); c['bindings'] = [tuple(b) for b in c['bindings']]
-        return c
+    fix = norm_case
     for key in ('case', 'renamed'):
         if d.get(key):
             c = fix(d[key])
